@@ -482,6 +482,7 @@ func suiteC08(c *Ctx) []Suite {
 				item := smlTemplate(c.R, 0.2, false)
 				m := genSMLMsg(c.R, item)
 				toks := msgTokens(c.R, m, i%2 == 0)
+				eolAfter := 0
 				if i%3 == 0 {
 					toks = mutateTokens(c.R, toks) // invalid messages too
 				}
@@ -496,14 +497,22 @@ func suiteC08(c *Ctx) []Suite {
 					}
 					if len(cand) > 0 {
 						toks = append([]STok{}, toks...)
-						toks[cand[c.R.Intn(len(cand))]] = STok{"1e999", 0, true}
+						k := cand[c.R.Intn(len(cand))]
+						toks[k] = STok{"1e999", 0, true}
+						if c.R.Intn(3) == 0 {
+							toks[k] = STok{`"unclosed`, 0, false} // a string that is not closed on its line
+							eolAfter = k + 1
+						}
 					}
 				}
 				if i%5 == 0 { // several messages in one text
 					toks = append(toks, msgTokens(c.R, genSMLMsg(c.R, smlTemplate(c.R, 0.2, false)), false)...)
 				}
-				t1, p1 := plainLayout(c.R).render(toks)
+				lay1 := plainLayout(c.R)
+				lay1.EOLAfter = eolAfter
+				t1, p1 := lay1.render(toks)
 				lay2 := randomLayout(c.R)
+				lay2.EOLAfter = eolAfter
 				if i%3 == 0 {
 					// in a mutated sequence tokens stand where gluing or a case change would alter
 					// the token sequence itself: vary only the separators and comments
@@ -527,6 +536,23 @@ func suiteC08(c *Ctx) []Suite {
 					d1, d2 := strings.Join(diagTokens(r1, p1, toks), " "), strings.Join(diagTokens(r2, p2, toks), " ")
 					if cs.Oracle == "" && d1 != d2 {
 						cs.Oracle = "layout changes the diagnostics (text or token they point at): " + d1 + " | " + d2
+					}
+					// the full diagnostic texts (positions aside) are the same when only
+					// separators and comments differ
+					if cs.Oracle == "" && !lay2.VaryCase && !lay2.SizeWs && !lay2.SizeZero {
+						strip := func(ds []string) string {
+							var o []string
+							for _, d := range ds {
+								if k := strings.Index(d, ": "); k >= 0 {
+									d = d[k+2:]
+								}
+								o = append(o, d)
+							}
+							return strings.Join(o, " | ")
+						}
+						if a, b := strip(append(append([]string{}, r1.errs...), r1.warns...)), strip(append(append([]string{}, r2.errs...), r2.warns...)); a != b {
+							cs.Oracle = "separators/comments change a diagnostic's text: " + firstDiff("x="+hxs(b), "x="+hxs(a))
+						}
 					}
 				}
 				out = append(out, cs, Case{Op: smlOp(t1), Nontrivial: true, Tags: []string{"plain-layout"}})
@@ -554,7 +580,12 @@ func suiteC08(c *Ctx) []Suite {
 				}
 				comment := " //" + commentTexts[c.R.Intn(len(commentTexts))] + string(cb)
 				if k == len(lines)-1 {
-					comment += "\n"
+					switch c.R.Intn(3) {
+					case 0:
+						comment += "\n"
+					case 1:
+						comment = " //" // an empty comment as the last bytes of the input
+					}
 				}
 				lines[k] += comment
 				text := strings.Join(lines, "\n")
@@ -748,6 +779,85 @@ func suiteC15(c *Ctx) []Suite {
 			}
 			return out
 		}},
+		{Name: "size/nested-declarations", Gen: func(c *Ctx) []Case {
+			// a list whose own declaration is violated while its descendants carry (correct or
+			// violated) declarations of their own: every size error is reported at the
+			// declaration of the item it belongs to
+			var out []Case
+			leaf := func() (string, bool) {
+				ok := c.R.Intn(4) > 0
+				switch c.R.Intn(4) {
+				case 0:
+					return fmt.Sprintf(`<A[%d] "ab">`, map[bool]int{true: 2, false: 3}[ok]), ok
+				case 1:
+					return fmt.Sprintf(`<U1[%d..%d] 1 2 3>`, map[bool]int{true: 1, false: 4}[ok], 5), ok
+				case 2:
+					return fmt.Sprintf(`<B[..%d] 1 2>`, map[bool]int{true: 2, false: 1}[ok]), ok
+				}
+				return `<I2 7>`, true
+			}
+			for i := 0; i < c.N(600); i++ {
+				var lines []string
+				type want struct{ line, col int }
+				var wants []want
+				lines = append(lines, "S1F1 W H->E")
+				var build func(depth, indent int)
+				build = func(depth, indent int) {
+					n := 1 + c.R.Intn(3)
+					declared := n
+					bad := c.R.Intn(2) == 0
+					if bad {
+						declared = n + 1 + c.R.Intn(2)
+					}
+					pad := strings.Repeat("  ", indent)
+					lines = append(lines, fmt.Sprintf("%s<L[%d]", pad, declared))
+					myLine := len(lines)
+					var kids []want
+					for k := 0; k < n; k++ {
+						if depth < 2 && c.R.Intn(3) == 0 {
+							before := len(wants)
+							build(depth+1, indent+1)
+							kids = append(kids, wants[before:]...)
+							wants = wants[:before]
+						} else {
+							t, ok := leaf()
+							lines = append(lines, pad+"  "+t)
+							if !ok {
+								kids = append(kids, want{len(lines), len(pad) + 2 + strings.IndexByte(t, '[') + 1})
+							}
+						}
+					}
+					lines = append(lines, pad+">")
+					// errors are reported in the order the items are completed: children first
+					wants = append(wants, kids...)
+					if bad {
+						wants = append(wants, want{myLine, len(pad) + 3})
+					}
+				}
+				build(0, 0)
+				lines = append(lines, ".")
+				text := strings.Join(lines, "\n")
+				res := parseSML(text)
+				cs := Case{Op: smlOp(text), Decisive: true, Nontrivial: true, Tags: []string{fmt.Sprintf("nested-decl errors:%d", len(wants))}}.fields("n err warn")
+				var got []string
+				for _, e := range res.errs {
+					if strings.Contains(e, "data item size overflow") {
+						got = append(got, e[:strings.IndexByte(e, ':')])
+					}
+				}
+				var exp []string
+				for _, w := range wants {
+					exp = append(exp, fmt.Sprintf("Ln %d, Col %d", w.line, w.col))
+				}
+				if res.panicked {
+					cs.Oracle = "panic"
+				} else if strings.Join(got, "; ") != strings.Join(exp, "; ") {
+					cs.Oracle = fmt.Sprintf("size errors reported at [%s], the violated declarations are at [%s]", strings.Join(got, "; "), strings.Join(exp, "; "))
+				}
+				out = append(out, cs)
+			}
+			return out
+		}},
 		{Name: "size/ascii-variable-under-ellipsis", Gen: func(c *Ctx) []Case { return ellipsisCases(c, c.N(1500), 3, 3) }},
 		{Name: "size/ascii-variable-bounds", Gen: func(c *Ctx) []Case {
 			var out []Case
@@ -818,7 +928,8 @@ func suiteC15(c *Ctx) []Suite {
 
 // ---------- C19 ----------
 
-var separators = []string{"// rev A\r rev B\n", "// was:\rS9F9 W H->E Old .\n", " //\r\r\n", "", " ", "\n", "\r\n", "\t", "  \n\n", "// c\n", " // c\r\n", "\n// first\n// second\n", " //\n", "// S9F9 W .\n", "\n\n\n"}
+var separators = []string{"\f", "\n\f\n", "\v", "\u0085", "\u00a0", " \u2028", "\u3000\n", "\r", "\f// page 2\n",
+	"// rev A\r rev B\n", "// was:\rS9F9 W H->E Old .\n", " //\r\r\n", "", " ", "\n", "\r\n", "\t", "  \n\n", "// c\n", " // c\r\n", "\n// first\n// second\n", " //\n", "// S9F9 W .\n", "\n\n\n"}
 
 func suiteC19(c *Ctx) []Suite {
 	return []Suite{
@@ -851,7 +962,15 @@ func suiteC19(c *Ctx) []Suite {
 							t += "\n" // a text may not end inside a comment
 						}
 					}
+					if m.Name != "" && (m.Item == nil || m.Item.Kind == "E") && c.R.Intn(2) == 0 {
+						// the terminator glued to the name is part of the name: such a text is
+						// not accepted on its own and never reaches the concatenation
+						if k := strings.LastIndex(t, m.Name); k >= 0 {
+							t = t[:k+len(m.Name)] + "."
+						}
+					}
 					r := parseSML(t)
+					out = append(out, Case{Op: smlOp(t), Nontrivial: true, Tags: []string{fmt.Sprintf("single-text accepted:%v", !r.panicked && len(r.errs) == 0)}})
 					if r.panicked || len(r.errs) != 0 {
 						okAll = false
 						break
